@@ -348,3 +348,112 @@ class Prov:
             else:
                 nodes[k] = {"grant": False, "revoked": n.revoked, "sub": list(n.subordinate), "id": n.id, "type": n.type}
         return nodes
+
+
+# ======================================================================================= relying party
+RP_CONF = {"issuer": "https://op.example.com", "redirect_uris": ["https://rp.example.com/cb"],
+           "client_id": "client_1", "client_secret": "abcdefghijklmnopqrstuvwxyz012345",
+           "base_url": "https://rp.example.com",
+           "key_conf": {"key_defs": [{"type": "EC", "crv": "P-256", "use": ["sig"]}],
+                        "private_path": os.path.join(srv.RUN, "c13_rp_jwks.json"), "read_only": False}}
+RP_PROVIDER_INFO = {"issuer": "https://op.example.com",
+                    "authorization_endpoint": "https://op.example.com/authorization",
+                    "token_endpoint": "https://op.example.com/token",
+                    "userinfo_endpoint": "https://op.example.com/userinfo"}
+
+
+class RPx:
+    """One relying party (idpyoidc.client.oidc.RP) driven through its real services; states and nonces are
+    random, outcomes name them by index."""
+
+    def __init__(self):
+        from idpyoidc.client.oidc import RP
+        self.rp = RP(config=copy.deepcopy(RP_CONF))
+        self.rp.get_context().provider_info = copy.deepcopy(RP_PROVIDER_INFO)
+        self.states = []
+        self.nonces = []
+
+    def tables(self):
+        return {"states": list(self.states), "nonces": list(self.nonces)}
+
+    def set_tables(self, t):
+        self.states, self.nonces = list(t["states"]), list(t["nonces"])
+
+    def dump(self):
+        return self.rp.get_context().dump()
+
+    def load(self, d):
+        self.rp.get_context().load(d)
+
+    def st(self, i):
+        return self.states[i] if i < len(self.states) else "no-such-state"
+
+    def canon(self, x):
+        if isinstance(x, dict):
+            return {k: self.canon(v) for k, v in sorted(x.items())}
+        if isinstance(x, (list, tuple)):
+            return [self.canon(v) for v in x]
+        if isinstance(x, str):
+            if x in self.states:
+                return "<state %d>" % self.states.index(x)
+            if x in self.nonces:
+                return "<nonce %d>" % self.nonces.index(x)
+        return x
+
+    def run(self, op):
+        try:
+            return self.canon(getattr(self, "op_" + op[0])(*op[1:]))
+        except Exception as e:
+            return ["exc", type(e).__name__]
+
+    def op_begin(self, scope):
+        svc = self.rp.get_service("authorization")
+        req = svc.construct(request_args={"scope": list(scope), "response_type": "code",
+                                          "redirect_uri": RP_CONF["redirect_uris"][0]})
+        self.states.append(req["state"])
+        self.nonces.append(req.get("nonce", "no-nonce"))
+        return ["ok", req.to_dict()]
+
+    def op_authresp(self, i, code):
+        from idpyoidc.message.oauth2 import AuthorizationResponse
+        svc = self.rp.get_service("authorization")
+        resp = AuthorizationResponse(code=code, state=self.st(i))
+        svc.update_service_context(resp, key=self.st(i))
+        return ["ok"]
+
+    def op_token_req(self, i):
+        return ["ok", self.rp.get_service("accesstoken").construct(request_args={}, state=self.st(i)).to_dict()]
+
+    def op_tokenresp(self, i, at, rt):
+        from idpyoidc.message.oauth2 import AccessTokenResponse
+        args = {"access_token": at, "token_type": "Bearer"}
+        if rt:
+            args["refresh_token"] = rt
+        self.rp.get_context().cstate.update(self.st(i), AccessTokenResponse(**args))
+        return ["ok"]
+
+    def op_refresh_req(self, i):
+        return ["ok", self.rp.get_service("refresh_token").construct(request_args={}, state=self.st(i)).to_dict()]
+
+    def op_userinfo_req(self, i):
+        return ["ok", self.rp.get_service("userinfo").construct(request_args={}, state=self.st(i)).to_dict()]
+
+    def op_nonce_owner(self, i):
+        n = self.nonces[i] if i < len(self.nonces) else "no-such-nonce"
+        return ["ok", self.rp.get_context().cstate.get_base_key(n)]
+
+    def op_known(self, i):
+        cs = self.rp.get_context().cstate
+        return ["ok", self.st(i) in cs.keys(), cs.get(self.st(i))]
+
+    def op_remove(self, i):
+        self.rp.get_context().cstate.remove_state(self.st(i))
+        return ["ok"]
+
+    def snapshot(self):
+        c = self.rp.get_context()
+        return self.canon({"db": c.cstate._db, "map": {self.canon(k): v for k, v in c.cstate._map.items()},
+                           "issuer": c.issuer, "provider_info": c.provider_info, "base_url": c.base_url,
+                           "registration_response": getattr(c, "registration_response", None),
+                           "hash_seed": c.hash_seed.hex() if isinstance(c.hash_seed, bytes) else repr(c.hash_seed),
+                           "iss_hash": c.iss_hash})
